@@ -5,11 +5,11 @@ package main
 
 import (
 	"bufio"
-	"io"
-	"log"
 	"encoding/json"
 	"flag"
 	"fmt"
+	"io"
+	"log"
 	"os"
 	"sort"
 	"sync"
@@ -17,21 +17,21 @@ import (
 
 // Mismatch is one discrepancy between specification and implementation.
 type Mismatch struct {
-	Sig     string      `json:"sig"`     // stable signature used to match KNOWN_FINDINGS entries
-	Case    interface{} `json:"case"`    // the concrete case (row + variant) that reproduces it
-	Detail  string      `json:"detail"`
-	Family  string      `json:"family"`
+	Sig    string      `json:"sig"`  // stable signature used to match KNOWN_FINDINGS entries
+	Case   interface{} `json:"case"` // the concrete case (row + variant) that reproduces it
+	Detail string      `json:"detail"`
+	Family string      `json:"family"`
 }
 
 // Report is what every driver prints as one JSON document on stdout.
 type Report struct {
-	Family      string         `json:"family"`
-	Evaluations int64          `json:"evaluations"`
-	Distinct    int64          `json:"distinct"`
-	Rows        int64          `json:"rows"`
-	Sigs        map[string]int `json:"sigs"`
-	Mismatches  []Mismatch     `json:"mismatches"`
-	Samples     []interface{}  `json:"samples"`
+	Family      string                 `json:"family"`
+	Evaluations int64                  `json:"evaluations"`
+	Distinct    int64                  `json:"distinct"`
+	Rows        int64                  `json:"rows"`
+	Sigs        map[string]int         `json:"sigs"`
+	Mismatches  []Mismatch             `json:"mismatches"`
+	Samples     []interface{}          `json:"samples"`
 	Extra       map[string]interface{} `json:"extra,omitempty"`
 	mu          sync.Mutex
 }
